@@ -55,6 +55,7 @@ template <template <class, class, class, class> class Impl, class It, class K, c
 static TapkeeOutput embed_with(It b, It e, K k, Dc d, Fc f, stichwort::ParametersSet parameters)
 {
     parameters.check();
+    parameters.checkTypes(tapkee_internal::defaults);
     parameters.merge(tapkee_internal::defaults);
     tapkee_internal::Context context(nullptr, nullptr);
     tapkee_internal::ImplementationBase<It, K, Dc, Fc> base(b, e, k, d, f, parameters, context);
